@@ -206,13 +206,16 @@ func H_C12_layout_chunker() {
 // dropping or repeating any paragraph, whatever the mix of short and long paragraphs.
 //
 //symgo:harness prop=C12 kernel=K2-layout-chunker-split
-//symgo:desc one heading and 3..4 paragraphs whose lengths are enumerated over {8, 45, 75} bytes (marker + filler words); ChunkerConfig with MaxChunkSize 80, MinChunkSize 20, TargetChunkSize 60, no overlap: every paragraph marker occurs exactly once in the chunk texts, in order; indices, ids and totals consistent
+//symgo:desc one heading and 3..4 paragraphs whose lengths are enumerated over {8, 45, 75} bytes (marker + filler words), all on one page or each on a page of its own (enumerated); ChunkerConfig with MaxChunkSize 80, MinChunkSize 20, TargetChunkSize 60, no overlap: every paragraph marker occurs exactly once in the chunk texts, in order; indices, ids and totals consistent; each chunk's page range is exactly the pages of the paragraphs it holds
 func H_C12_layout_chunker_large_section() {
 	cfg := DefaultChunkerConfig()
 	cfg.MaxChunkSize, cfg.MinChunkSize, cfg.TargetChunkSize, cfg.OverlapSize = 80, 20, 60, 0
 	n := vAnyIntIn(3, 4)
+	spread := vAnyIntIn(0, 1) == 1 // every paragraph on a page of its own (the section then spans n pages)
+	doc := model.NewDocument()
 	page := model.NewPage(612, 792)
 	page.Layout = &model.PageLayout{Headings: []model.HeadingInfo{{Level: 1, Text: "Title"}}}
+	doc.AddPage(page)
 	fill := "lorem ipsum dolor sit amet consectetur adipiscing elit sed do eiusmod tempor incididunt ut labore"
 	var markers []string
 	for i := 0; i < n; i++ {
@@ -220,11 +223,14 @@ func H_C12_layout_chunker_large_section() {
 		ln := []int{8, 45, 75}[vAnyIntIn(0, 2)]
 		txt := mk + " " + fill
 		txt = txt[:ln-1] + "."
+		if spread && i > 0 {
+			page = model.NewPage(612, 792)
+			page.Layout = &model.PageLayout{}
+			doc.AddPage(page)
+		}
 		page.Layout.Paragraphs = append(page.Layout.Paragraphs, model.ParagraphInfo{Text: txt})
 		markers = append(markers, mk)
 	}
-	doc := model.NewDocument()
-	doc.AddPage(page)
 	res, err := NewChunkerWithConfig(cfg).Chunk(doc)
 	vAssert("no-error", err == nil && res != nil)
 	var all strings.Builder
@@ -244,6 +250,27 @@ func H_C12_layout_chunker_large_section() {
 		pos := strings.Index(text, mk)
 		vAssert("document-order", pos > last)
 		last = pos
+	}
+	// a chunk's page range lies on the pages its content came from
+	for _, c := range res.Chunks {
+		lo, hi := 0, 0
+		for k, mk := range markers {
+			if strings.Contains(c.Text, mk) {
+				pg := 1
+				if spread {
+					pg = k + 1
+				}
+				if lo == 0 || pg < lo {
+					lo = pg
+				}
+				if pg > hi {
+					hi = pg
+				}
+			}
+		}
+		if lo > 0 {
+			vAssert("page-range-is-that-of-the-chunks-own-content", c.Metadata.PageStart == lo && c.Metadata.PageEnd == hi)
+		}
 	}
 	vReach("end")
 }
